@@ -4,17 +4,17 @@ Import ListNotations.
 From LCC Require Import Base.Util Model.PyVal Model.Matcher gen.TablesMatchers Model.Describe Proofs.MatcherP.
 
 (* the operand loop of AllOf / AnyOf.build_description *)
-Definition descs_loop (ni : not_impl) (cw : comp_words) :=
+Definition descs_loop (ni : not_impl) (cw : comp_impl) :=
   fix descs (ms : list matcher) (t : transf) : list str * transf :=
     match ms with
     | [] => ([], t)
     | m' :: r => let '(s, t1) := describe_st ni cw m' t in let '(ss, t2) := descs r t1 in (s :: ss, t2)
     end.
 
-Lemma describe_all_of : forall ni cw ms t, describe_st ni cw (AllOf ms) t = composite (descs_loop ni cw) ms (rel_all cw t) t.
+Lemma describe_all_of : forall ni cw ms t, describe_st ni cw (AllOf ms) t = composite cw (descs_loop ni cw) ms (rel_all cw t) t.
 Proof. reflexivity. Qed.
 
-Lemma describe_any_of : forall ni cw ms t, describe_st ni cw (AnyOf ms) t = composite (descs_loop ni cw) ms (rel_any cw t) t.
+Lemma describe_any_of : forall ni cw ms t, describe_st ni cw (AnyOf ms) t = composite cw (descs_loop ni cw) ms (rel_any cw t) t.
 Proof. reflexivity. Qed.
 
 Lemma flip_flip : forall t, flip (flip t) = t.
@@ -33,11 +33,11 @@ Qed.
 
 Lemma composite_layout : forall ni cw ms rel t,
   Forall (fun m => forall t, snd (describe_st ni cw m t) = t) ms ->
-  composite (descs_loop ni cw) ms rel t = (layout ms rel (map (fun m => fst (describe_st ni cw m t)) ms), t).
+  composite cw (descs_loop ni cw) ms rel t = (layout cw ms rel (map (fun m => fst (describe_st ni cw m t)) ms), t).
 Proof.
   intros ni cw ms rel t H. unfold composite, layout.
   pose proof (descs_loop_pure ni cw ms H) as E. rewrite !E.
-  destruct (existsb is_composite ms); auto.
+  destruct (existsb (composite_operand cw) ms); auto.
   destruct (existsb has_newline (map (fun m => fst (describe_st ni cw m t)) ms)); rewrite ?E; auto.
   destruct (Nat.ltb sl_limit (List.length (join (fill sl_join_format [rel]) (map (fun m => fst (describe_st ni cw m t)) ms)))); rewrite ?E; auto.
   destruct (join (fill sl_join_format [rel]) (map (fun m => fst (describe_st ni cw m t)) ms)); rewrite ?E; auto.
@@ -63,8 +63,8 @@ Proof. intros cw ms. apply Forall_forall. intros m _. apply transformer_preserve
 
 (* C17_sibling_independent *)
 Lemma sibling_independent : forall cw ms t,
-  describe_st NotFresh cw (AllOf ms) t = (layout ms (rel_all cw t) (map (fun m => fst (describe_st NotFresh cw m t)) ms), t) /\
-  describe_st NotFresh cw (AnyOf ms) t = (layout ms (rel_any cw t) (map (fun m => fst (describe_st NotFresh cw m t)) ms), t).
+  describe_st NotFresh cw (AllOf ms) t = (layout cw ms (rel_all cw t) (map (fun m => fst (describe_st NotFresh cw m t)) ms), t) /\
+  describe_st NotFresh cw (AnyOf ms) t = (layout cw ms (rel_any cw t) (map (fun m => fst (describe_st NotFresh cw m t)) ms), t).
 Proof.
   intros. rewrite describe_all_of, describe_any_of. split; apply composite_layout; apply all_preserved.
 Qed.
@@ -78,9 +78,9 @@ Proof.
   pose proof (transformer_preserved cw m t) as H. destruct (describe_st NotFresh cw m t) as [s t']. simpl in *. subst. reflexivity.
 Qed.
 
-(* ------------------------------------------------------------------ negation: wording follows logic (De Morgan, F9b repaired) *)
+(* ------------------------------------------------------------------ negation: wording follows logic (De Morgan: F9b and F23 repaired) *)
 (* the words of a composite follow De Morgan: under a negative transformer all_of uses the word of any_of and conversely *)
-Definition de_morgan_words (cw : comp_words) : Prop := cw_all_neg cw = cw_any cw /\ cw_any_neg cw = cw_all cw.
+Definition de_morgan_words (cw : comp_impl) : Prop := cw_all_neg cw = cw_any cw /\ cw_any_neg cw = cw_all cw.
 
 Lemma rel_all_flip : forall cw t, de_morgan_words cw -> rel_all cw (flip t) = rel_any cw t.
 Proof. intros cw [c n] [Ha Hb]. unfold rel_all, rel_any, flip. simpl. destruct n; simpl; congruence. Qed.
@@ -88,12 +88,23 @@ Proof. intros cw [c n] [Ha Hb]. unfold rel_all, rel_any, flip. simpl. destruct n
 Lemma rel_any_flip : forall cw t, de_morgan_words cw -> rel_any cw (flip t) = rel_all cw t.
 Proof. intros cw [c n] [Ha Hb]. unfold rel_all, rel_any, flip. simpl. destruct n; simpl; congruence. Qed.
 
+(* the isinstance test does not see a composite behind not_ ... *)
 Lemma not_is_not_composite : forall ms, existsb is_composite (map Not ms) = false.
 Proof. induction ms as [|m ms IH]; simpl; auto. Qed.
 
-Lemma layout_operands_irrelevant : forall ms ms' rel ds,
-  existsb is_composite ms = existsb is_composite ms' -> layout ms rel ds = layout ms' rel ds.
-Proof. intros ms ms' rel ds H. unfold layout. rewrite H. reflexivity. Qed.
+(* ... composites._is_composite does *)
+Lemma through_not : forall ms, existsb is_composite_through (map Not ms) = existsb is_composite_through ms.
+Proof. induction ms as [|m ms IH]; simpl; congruence. Qed.
+
+Lemma composite_operand_not : forall cw ms, cw_see_through cw = true ->
+  existsb (composite_operand cw) (map Not ms) = existsb (composite_operand cw) ms.
+Proof.
+  intros cw ms H. unfold composite_operand. rewrite H. apply through_not.
+Qed.
+
+Lemma layout_operands_irrelevant : forall cw ms ms' rel ds,
+  existsb (composite_operand cw) ms = existsb (composite_operand cw) ms' -> layout cw ms rel ds = layout cw ms' rel ds.
+Proof. intros cw ms ms' rel ds H. unfold layout. rewrite H. reflexivity. Qed.
 
 (* the descriptions of the operands of not_(all_of ms) are those of the operands of any_of (map not_ ms) *)
 Lemma negated_operands : forall cw ms t,
@@ -104,14 +115,14 @@ Lemma mapped_operands : forall cw ms t,
   map (fun m => fst (describe_st NotFresh cw m t)) (map Not ms) = map (fun m => fst (describe_st NotFresh cw (Not m) t)) ms.
 Proof. intros. rewrite map_map. reflexivity. Qed.
 
-(* general form: same relationship word, same operand descriptions; only the "an operand is itself a composite" test of the
-   layout sees different objects (all_of / any_of on one side, Not objects on the other) *)
+(* general form, whatever the composite-operand test: same relationship word, same operand descriptions; the test of the
+   layout is applied to ms on one side and to map Not ms on the other *)
 Lemma de_morgan_layout : forall cw ms t, de_morgan_words cw ->
   let ds := map (fun m => fst (describe_st NotFresh cw (Not m) t)) ms in
-  describe_st NotFresh cw (Not (AllOf ms)) t = (layout ms (rel_any cw t) ds, t) /\
-  describe_st NotFresh cw (AnyOf (map Not ms)) t = (layout (map Not ms) (rel_any cw t) ds, t) /\
-  describe_st NotFresh cw (Not (AnyOf ms)) t = (layout ms (rel_all cw t) ds, t) /\
-  describe_st NotFresh cw (AllOf (map Not ms)) t = (layout (map Not ms) (rel_all cw t) ds, t).
+  describe_st NotFresh cw (Not (AllOf ms)) t = (layout cw ms (rel_any cw t) ds, t) /\
+  describe_st NotFresh cw (AnyOf (map Not ms)) t = (layout cw (map Not ms) (rel_any cw t) ds, t) /\
+  describe_st NotFresh cw (Not (AnyOf ms)) t = (layout cw ms (rel_all cw t) ds, t) /\
+  describe_st NotFresh cw (AllOf (map Not ms)) t = (layout cw (map Not ms) (rel_all cw t) ds, t).
 Proof.
   intros cw ms t W ds. unfold ds.
   destruct (sibling_independent cw ms (flip t)) as [Ha Ho].
@@ -120,55 +131,71 @@ Proof.
   rewrite rel_all_flip, rel_any_flip, negated_operands, mapped_operands by exact W. repeat split; reflexivity.
 Qed.
 
-Lemma de_morgan_wording : forall cw ms t, de_morgan_words cw -> existsb is_composite ms = false ->
+(* De Morgan in the wording, for every operand list, when the test looks through Not *)
+Lemma de_morgan_wording : forall cw ms t, de_morgan_words cw -> cw_see_through cw = true ->
   describe_st NotFresh cw (Not (AllOf ms)) t = describe_st NotFresh cw (AnyOf (map Not ms)) t /\
   describe_st NotFresh cw (Not (AnyOf ms)) t = describe_st NotFresh cw (AllOf (map Not ms)) t.
 Proof.
-  intros cw ms t W Hc. destruct (de_morgan_layout cw ms t W) as (E1 & E2 & E3 & E4).
+  intros cw ms t W Hs. destruct (de_morgan_layout cw ms t W) as (E1 & E2 & E3 & E4).
   rewrite E1, E2, E3, E4.
-  assert (Hl : existsb is_composite ms = existsb is_composite (map Not ms)) by (rewrite not_is_not_composite; exact Hc).
+  pose proof (composite_operand_not cw ms Hs) as Hl. symmetry in Hl.
   split; f_equal; apply layout_operands_irrelevant; exact Hl.
 Qed.
 
 Lemma source_words_de_morgan : de_morgan_words comp_of_source.
 Proof. split; reflexivity. Qed.
 
+Lemma source_sees_through : cw_see_through comp_of_source = true.
+Proof. reflexivity. Qed.
+
 Lemma negation_follows_logic : forall m ms t v,
   (* not_(m) is worded as m under the flipped transformer and accepts the opposite *)
   fst (describe_st NotFresh comp_of_source (Not m) t) = fst (describe_st NotFresh comp_of_source m (flip t)) /\
   truth (matches (Not m) v) = rmap negb (truth (matches m v)) /\
   (* De Morgan, wording and logic *)
-  (existsb is_composite ms = false ->
-   describe_st NotFresh comp_of_source (Not (AllOf ms)) t = describe_st NotFresh comp_of_source (AnyOf (map Not ms)) t /\
-   describe_st NotFresh comp_of_source (Not (AnyOf ms)) t = describe_st NotFresh comp_of_source (AllOf (map Not ms)) t) /\
+  describe_st NotFresh comp_of_source (Not (AllOf ms)) t = describe_st NotFresh comp_of_source (AnyOf (map Not ms)) t /\
+  describe_st NotFresh comp_of_source (Not (AnyOf ms)) t = describe_st NotFresh comp_of_source (AllOf (map Not ms)) t /\
   truth (matches (Not (AllOf ms)) v) = truth (matches (AnyOf (map Not ms)) v) /\
   truth (matches (Not (AnyOf ms)) v) = truth (matches (AllOf (map Not ms)) v).
 Proof.
-  intros. split; [|split; [|split; [|split]]].
+  intros. destruct (de_morgan_wording comp_of_source ms t source_words_de_morgan source_sees_through) as [Da Do].
+  split; [|split; [|split; [|split; [|split]]]].
   - rewrite describe_not. reflexivity.
   - apply not_exact.
-  - apply de_morgan_wording. exact source_words_de_morgan.
+  - exact Da.
+  - exact Do.
   - apply de_morgan_all.
   - apply de_morgan_any.
 Qed.
 
+(* what the description of a negated composite is: the layout of the descriptions of the negated operands, joined by the word
+   of the dual composite; an operand counts as a composite for the layout whether it is negated or not *)
 Lemma negation_de_morgan_layout : forall ms t,
   let ds := map (fun m => fst (describe_st NotFresh comp_of_source (Not m) t)) ms in
-  describe_st NotFresh comp_of_source (Not (AllOf ms)) t = (layout ms (rel_any comp_of_source t) ds, t) /\
-  describe_st NotFresh comp_of_source (AnyOf (map Not ms)) t = (layout (map Not ms) (rel_any comp_of_source t) ds, t) /\
-  describe_st NotFresh comp_of_source (Not (AnyOf ms)) t = (layout ms (rel_all comp_of_source t) ds, t) /\
-  describe_st NotFresh comp_of_source (AllOf (map Not ms)) t = (layout (map Not ms) (rel_all comp_of_source t) ds, t).
-Proof. intros ms t. apply de_morgan_layout. exact source_words_de_morgan. Qed.
+  describe_st NotFresh comp_of_source (Not (AllOf ms)) t = (layout comp_of_source ms (rel_any comp_of_source t) ds, t) /\
+  describe_st NotFresh comp_of_source (Not (AnyOf ms)) t = (layout comp_of_source ms (rel_all comp_of_source t) ds, t) /\
+  existsb (composite_operand comp_of_source) (map Not ms) = existsb (composite_operand comp_of_source) ms.
+Proof.
+  intros ms t. destruct (de_morgan_layout comp_of_source ms t source_words_de_morgan) as (E1 & _ & E3 & _).
+  split; [exact E1 | split; [exact E3 | apply composite_operand_not; exact source_sees_through]].
+Qed.
+
+(* a description-less wrapper (hide_result_details) changes neither the wording nor the layout of its parent *)
+Lemma wrapper_transparent : forall cw m h t, describe_st NotFresh cw (Wrapper m None h) t = describe_st NotFresh cw m t.
+Proof. reflexivity. Qed.
+
+Lemma wrapper_seen_through : forall m h, composite_operand comp_of_source (Wrapper m None h) = composite_operand comp_of_source m.
+Proof. reflexivity. Qed.
+
+Lemma wrapper_and_not_transparent : forall m h t,
+  describe_st NotFresh comp_of_source (Wrapper m None h) t = describe_st NotFresh comp_of_source m t /\
+  composite_operand comp_of_source (Wrapper m None h) = composite_operand comp_of_source m /\
+  composite_operand comp_of_source (Not m) = composite_operand comp_of_source m.
+Proof. intros; repeat split. Qed.
 
 Definition gt0 := Comparator (CCmp Gt) (VInt 0).
 Definition lt10 := Comparator (CCmp Lt) (VInt 10).
 Definition eq5 := EqualTo (VInt 5).
-
-(* with an operand that is itself a composite the two sides may be laid out differently (the left one is always itemised);
-   they still show the same word and the same operand descriptions (negation_de_morgan_layout) *)
-Lemma de_morgan_wording_composite_operand : exists ms,
-  describe NotFresh comp_of_source (Not (AllOf ms)) <> describe NotFresh comp_of_source (AnyOf (map Not ms)).
-Proof. exists [gt0; AnyOf [lt10; eq5]]. intro H. vm_compute in H. discriminate H. Qed.
 
 (* the wording of a negated matcher is the negative form of the same sentence: for a leaf, transform with the flag flipped *)
 Lemma negated_leaf_wording : forall cw e t,
@@ -180,39 +207,61 @@ Definition leak_operands : list matcher := [Not IsNone; Comparator (CCmp Gt) (VI
 
 (* all_of(is_not_none(), greater_than(0)): the second operand is worded in the negative although it is not negated *)
 Lemma sibling_independent_mutating_refuted : exists ms t,
-  fst (describe_st NotMutates comp_unfixed (AllOf ms) t) <>
-    layout ms (rel_all comp_unfixed t) (map (fun m => fst (describe_st NotMutates comp_unfixed m t)) ms) /\
-  snd (describe_st NotMutates comp_unfixed (AllOf ms) t) <> t.
+  fst (describe_st NotMutates comp_pre_f9b (AllOf ms) t) <>
+    layout comp_pre_f9b ms (rel_all comp_pre_f9b t) (map (fun m => fst (describe_st NotMutates comp_pre_f9b m t)) ms) /\
+  snd (describe_st NotMutates comp_pre_f9b (AllOf ms) t) <> t.
 Proof.
   exists leak_operands, fresh. split; intro H; vm_compute in H; discriminate H.
 Qed.
 
 (* not_(not_(m)) is worded like not_(m) but accepts what m accepts *)
 Lemma double_negation_mutating_refuted : exists m v,
-  fst (describe_st NotMutates comp_unfixed (Not (Not m)) fresh) = fst (describe_st NotMutates comp_unfixed (Not m) fresh) /\
+  fst (describe_st NotMutates comp_pre_f9b (Not (Not m)) fresh) = fst (describe_st NotMutates comp_pre_f9b (Not m) fresh) /\
   accepts (Not (Not m)) v = true /\ accepts (Not m) v = false.
 Proof. exists IsNone, VNone. repeat split; vm_compute; reflexivity. Qed.
 
 (* ------------------------------------------------------------------ F9b: the description does not determine what was verified *)
-(* pre-fix variant (comp_unfixed: one relationship word whatever the transformer): not_(all_of(a, b)) is worded like
+(* pre-fix variant (comp_pre_f9b: one relationship word whatever the transformer): not_(all_of(a, b)) is worded like
    all_of(not_(a), not_(b)).  With the words of the source (comp_of_source) the same pair is told apart. *)
 Lemma faithful_negated_composite_unfixed_refuted : exists m1 m2 v,
-  describe NotFresh comp_unfixed m1 = describe NotFresh comp_unfixed m2 /\ accepts m1 v = true /\ accepts m2 v = false /\
+  describe NotFresh comp_pre_f9b m1 = describe NotFresh comp_pre_f9b m2 /\ accepts m1 v = true /\ accepts m2 v = false /\
   describe NotFresh comp_of_source m1 <> describe NotFresh comp_of_source m2.
 Proof.
   exists (Not (AllOf [gt0; lt10])), (AllOf [Not gt0; Not lt10]), (VInt 20).
   repeat split; try (vm_compute; reflexivity). intro H. vm_compute in H. discriminate H.
 Qed.
 
-(* still true of the repaired code: not_(composite) is a Not object, which its parent does not see as a composite, so it is
-   joined on the parent's line without grouping:  a and (not b or not c)  reads like  (a and not b) or not c *)
-Lemma faithful_refuted_negated_operand : exists m1 m2 v,
-  describe not_of_source comp_of_source m1 = describe not_of_source comp_of_source m2 /\ accepts m1 v = true /\ accepts m2 v = false.
+(* ------------------------------------------------------------------ F23: pre-fix variant comp_pre_f23 (the single-line layout tests
+   the operand OBJECT: a composite behind not_ or behind hide_result_details() is not recognised) *)
+(* De Morgan in the wording needed "no operand is itself a composite": not_(all_of(a, any_of(b, c))) was itemised,
+   any_of(not_(a), not_(any_of(b, c))) fitted on one line *)
+Lemma de_morgan_composite_operand_unfixed_refuted : exists ms,
+  describe NotFresh comp_pre_f23 (Not (AllOf ms)) <> describe NotFresh comp_pre_f23 (AnyOf (map Not ms)) /\
+  describe NotFresh comp_of_source (Not (AllOf ms)) = describe NotFresh comp_of_source (AnyOf (map Not ms)).
 Proof.
-  exists (AnyOf [Not (AnyOf [Not gt0; lt10]); Not eq5]), (AllOf [gt0; Not (AllOf [lt10; eq5])]), (VInt 0).
-  repeat split; vm_compute; reflexivity.
+  exists [gt0; AnyOf [lt10; eq5]]. split; [intro H; vm_compute in H; discriminate H | vm_compute; reflexivity].
 Qed.
 
+(* not_(composite) was joined on its parent's line without grouping:  a and (not b or not c)  read like  (a and not b) or not c *)
+Lemma faithful_negated_operand_unfixed_refuted : exists m1 m2 v,
+  describe NotFresh comp_pre_f23 m1 = describe NotFresh comp_pre_f23 m2 /\ accepts m1 v = true /\ accepts m2 v = false /\
+  describe NotFresh comp_of_source m1 <> describe NotFresh comp_of_source m2.
+Proof.
+  exists (AnyOf [Not (AnyOf [Not gt0; lt10]); Not eq5]), (AllOf [gt0; Not (AllOf [lt10; eq5])]), (VInt 0).
+  repeat split; try (vm_compute; reflexivity). intro H. vm_compute in H. discriminate H.
+Qed.
+
+(* so was a composite behind hide_result_details():  (1 or 2) and 3  read like  1 or (2 and 3) *)
+Lemma faithful_wrapped_composite_unfixed_refuted : exists m1 m2 v,
+  describe NotFresh comp_pre_f23 m1 = describe NotFresh comp_pre_f23 m2 /\ accepts m1 v = true /\ accepts m2 v = false /\
+  describe NotFresh comp_of_source m1 <> describe NotFresh comp_of_source m2.
+Proof.
+  exists (any_of [AVal (VInt 1); AMat (hide_result_details (all_of [AVal (VInt 2); AVal (VInt 3)]))]),
+         (all_of [AMat (hide_result_details (any_of [AVal (VInt 1); AVal (VInt 2)])); AVal (VInt 3)]), (VInt 1).
+  repeat split; try (vm_compute; reflexivity). intro H. vm_compute in H. discriminate H.
+Qed.
+
+(* ------------------------------------------------------------------ still open *)
 Lemma faithful_refuted_empty_composite : exists m1 m2 v,
   describe not_of_source comp_of_source m1 = describe not_of_source comp_of_source m2 /\ accepts m1 v = true /\ accepts m2 v = false.
 Proof. exists (AllOf []), (AnyOf []), VNone. repeat split; vm_compute; reflexivity. Qed.
@@ -278,22 +327,13 @@ Qed.
 Lemma faithful_partial_needs_nonempty : exists s f1 f2 val, render_flat s f1 = render_flat s f2 /\ flat_sem val f1 <> flat_sem val f2.
 Proof. exists false, (FAll []), (FAny []), (fun _ => true). split; [reflexivity | discriminate]. Qed.
 
-(* outside the property's fragment: a composite behind hide_result_details() is not seen as a composite by its parent and
-   is rendered on the parent's line without grouping: (1 or 2) and 3 reads like 1 or (2 and 3) *)
-Lemma faithful_refuted_wrapped_composite : exists m1 m2 v,
-  describe not_of_source comp_of_source m1 = describe not_of_source comp_of_source m2 /\ accepts m1 v = true /\ accepts m2 v = false.
-Proof.
-  exists (any_of [AVal (VInt 1); AMat (hide_result_details (all_of [AVal (VInt 2); AVal (VInt 3)]))]),
-         (all_of [AMat (hide_result_details (any_of [AVal (VInt 1); AVal (VInt 2)])); AVal (VInt 3)]), (VInt 1).
-  repeat split; vm_compute; reflexivity.
-Qed.
-
-(* ------------------------------------------------------------------ token-level faithfulness of nested expressions *)
+(* ------------------------------------------------------------------ token-level faithfulness of nested expressions, not_ anywhere *)
 Section FexprInd.
   Variable P : fexpr -> Prop.
   Hypothesis H_FL : forall l, P (FL l).
   Hypothesis H_FAllN : forall es, Forall P es -> P (FAllN es).
   Hypothesis H_FAnyN : forall es, Forall P es -> P (FAnyN es).
+  Hypothesis H_FNotN : forall e, P e -> P (FNotN e).
   Fixpoint fexpr_ind' (e : fexpr) : P e :=
     match e with
     | FL l => H_FL l
@@ -301,76 +341,10 @@ Section FexprInd.
                                  match l with [] => Forall_nil P | x :: r => Forall_cons x (fexpr_ind' x) (go r) end) es)
     | FAnyN es => H_FAnyN es ((fix go (l : list fexpr) : Forall P l :=
                                  match l with [] => Forall_nil P | x :: r => Forall_cons x (fexpr_ind' x) (go r) end) es)
+    | FNotN e' => H_FNotN e' (fexpr_ind' e')
     end.
 End FexprInd.
 
-Lemma all_lits_sem : forall val es, forallb fexpr_is_lit es = true ->
-  forallb (fsem val) es = forallb (lit_sem val) (fexpr_lits es) /\
-  existsb (fsem val) es = existsb (lit_sem val) (fexpr_lits es).
-Proof.
-  intros val es. induction es as [|e es IH]; simpl; auto.
-  destruct e as [l| |]; simpl; try discriminate.
-  intro H. destruct (IH H) as [IHa IHe]. rewrite IHa, IHe. auto.
-Qed.
-
-Lemma all_lits_length : forall es, forallb fexpr_is_lit es = true -> List.length (fexpr_lits es) = List.length es.
-Proof.
-  induction es as [|e es IH]; simpl; auto. destruct e; simpl; try discriminate. intro H. rewrite IH; auto.
-Qed.
-
-Lemma doc_items_or_and : forall ds first, existsb item_is_or (doc_items TAnd ds first) = false.
-Proof. induction ds as [|d r IH]; intro first; simpl; auto. destruct first; simpl; auto. Qed.
-
-Lemma doc_items_or_or : forall ds, existsb item_is_or (doc_items TOr ds true) = match ds with _ :: _ :: _ => true | _ => false end.
-Proof. destruct ds as [|d [|d' r]]; simpl; auto. Qed.
-
-Lemma doc_items_forallb : forall val rel es single first,
-  Forall (fun e => fexpr_wf e = true -> doc_sem val (render single e) = fsem val e) es ->
-  forallb fexpr_wf es = true ->
-  forallb (fun it => doc_sem val (snd it)) (doc_items rel (map (render single) es) first) = forallb (fsem val) es /\
-  existsb (fun it => doc_sem val (snd it)) (doc_items rel (map (render single) es) first) = existsb (fsem val) es.
-Proof.
-  intros val rel es single first H. revert first. induction H as [|e es He Hes IH]; intros first Hwf; simpl; auto.
-  simpl in Hwf. apply andb_true_iff in Hwf. destruct Hwf as [Hwe Hwes].
-  destruct (IH false Hwes) as [IHa IHe]. rewrite He, IHa, IHe; auto.
-Qed.
-
-Lemma doc_sem_render : forall val single e, fexpr_wf e = true -> doc_sem val (render single e) = fsem val e.
-Proof.
-  intros val single. induction e using fexpr_ind'; intro Hwf.
-  - simpl. unfold toks_sem. simpl. rewrite andb_true_r. reflexivity.
-  - simpl in Hwf. destruct es as [|e0 es0]; try discriminate.
-    cbn [render]. destruct (forallb fexpr_is_lit (e0 :: es0) && single (e0 :: es0)) eqn:E.
-    + apply andb_true_iff in E. destruct E as [El _].
-      cbn [doc_sem]. unfold toks_sem. rewrite single_line_or_and, single_line_lits; auto.
-      symmetry. apply (all_lits_sem val _ El).
-    + cbn [doc_sem]. rewrite doc_items_or_and.
-      apply (doc_items_forallb val TAnd (e0 :: es0) single true H Hwf).
-  - simpl in Hwf. destruct es as [|e0 es0]; try discriminate.
-    cbn [render]. destruct (forallb fexpr_is_lit (e0 :: es0) && single (e0 :: es0)) eqn:E.
-    + apply andb_true_iff in E. destruct E as [El _].
-      cbn [doc_sem]. unfold toks_sem. rewrite single_line_or_or, single_line_lits; auto.
-      destruct (all_lits_sem val _ El) as [Ha He]. cbn [fsem]. rewrite He.
-      pose proof (all_lits_length _ El) as Hlen.
-      destruct (fexpr_lits (e0 :: es0)) as [|l [|l' r]] eqn:EL; simpl in *; try discriminate;
-        rewrite ?andb_true_r, ?orb_false_r; reflexivity.
-    + cbn [doc_sem]. rewrite doc_items_or_or.
-      destruct (doc_items_forallb val TOr (e0 :: es0) single true H Hwf) as [Ha He].
-      destruct es0 as [|e1 es1].
-      * rewrite Ha. simpl. rewrite andb_true_r, orb_false_r. reflexivity.
-      * rewrite He. reflexivity.
-Qed.
-
-Lemma faithful_partial_nested : forall s1 s2 e1 e2,
-  fexpr_wf e1 = true -> fexpr_wf e2 = true ->
-  render s1 e1 = render s2 e2 ->
-  forall val, fsem val e1 = fsem val e2.
-Proof.
-  intros s1 s2 e1 e2 H1 H2 E val.
-  rewrite <- (doc_sem_render val s1 e1 H1), <- (doc_sem_render val s2 e2 H2), E. reflexivity.
-Qed.
-
-(* ------------------------------------------------------------------ token-level faithfulness under one negation (F9b repaired) *)
 Lemma neg_lit_false : forall l, neg_lit false l = l.
 Proof. intros [id [|]]; reflexivity. Qed.
 
@@ -383,17 +357,28 @@ Proof. induction l as [|x l IH]; simpl; congruence. Qed.
 Lemma existsb_map' : forall {A B} (f : B -> bool) (g : A -> B) l, existsb f (map g l) = existsb (fun x => f (g x)) l.
 Proof. induction l as [|x l IH]; simpl; congruence. Qed.
 
-Lemma existsb_negb : forall {A} (f : A -> bool) l, existsb (fun x => negb (f x)) l = negb (forallb f l).
-Proof. induction l as [|x l IH]; simpl; auto. rewrite IH, negb_andb. reflexivity. Qed.
+Lemma forallb_as_map : forall {A} (f : A -> bool) l, forallb f l = forallb (fun b => b) (map f l).
+Proof. intros. rewrite forallb_map'. reflexivity. Qed.
 
-Lemma forallb_negb : forall {A} (f : A -> bool) l, forallb (fun x => negb (f x)) l = negb (existsb f l).
-Proof. induction l as [|x l IH]; simpl; auto. rewrite IH, negb_orb. reflexivity. Qed.
+Lemma existsb_as_map : forall {A} (f : A -> bool) l, existsb f l = existsb (fun b => b) (map f l).
+Proof. intros. rewrite existsb_map'. reflexivity. Qed.
 
-Lemma forallb_ext' : forall {A} (f g : A -> bool) l, (forall x, f x = g x) -> forallb f l = forallb g l.
-Proof. intros A f g l H. induction l as [|x l IH]; simpl; congruence. Qed.
+(* De Morgan over a list, with the negation as a flag *)
+Lemma forallb_xorb : forall {A} (f : A -> bool) b l,
+  forallb (fun x => xorb b (f x)) l = if b then negb (existsb f l) else forallb f l.
+Proof.
+  intros A f b l. destruct b.
+  - induction l as [|x l IH]; cbn [forallb existsb]; auto. rewrite IH, negb_orb. destruct (f x); reflexivity.
+  - induction l as [|x l IH]; cbn [forallb existsb]; auto. rewrite IH. destruct (f x); reflexivity.
+Qed.
 
-Lemma existsb_ext' : forall {A} (f g : A -> bool) l, (forall x, f x = g x) -> existsb f l = existsb g l.
-Proof. intros A f g l H. induction l as [|x l IH]; simpl; congruence. Qed.
+Lemma existsb_xorb : forall {A} (f : A -> bool) b l,
+  existsb (fun x => xorb b (f x)) l = if b then negb (forallb f l) else existsb f l.
+Proof.
+  intros A f b l. destruct b.
+  - induction l as [|x l IH]; cbn [forallb existsb]; auto. rewrite IH, negb_andb. destruct (f x); reflexivity.
+  - induction l as [|x l IH]; cbn [forallb existsb]; auto. rewrite IH. destruct (f x); reflexivity.
+Qed.
 
 (* reading one line back *)
 Lemma toks_sem_line_and : forall val ls, toks_sem val (single_line_toks TAnd ls) = forallb (lit_sem val) ls.
@@ -402,10 +387,16 @@ Proof. intros. unfold toks_sem. rewrite single_line_or_and, single_line_lits; au
 Lemma toks_sem_line_or : forall val ls, ls <> [] -> toks_sem val (single_line_toks TOr ls) = existsb (lit_sem val) ls.
 Proof.
   intros val ls Hne. unfold toks_sem. rewrite single_line_or_or, single_line_lits; auto.
-  destruct ls as [|l [|l' r]]; try congruence; simpl; rewrite ?andb_true_r, ?orb_false_r; reflexivity.
+  destruct ls as [|l [|l' r]]; [congruence | |]; simpl; rewrite ?andb_true_r, ?orb_false_r; reflexivity.
 Qed.
 
 (* reading an itemised list back *)
+Lemma doc_items_or_and : forall ds first, existsb item_is_or (doc_items TAnd ds first) = false.
+Proof. induction ds as [|d r IH]; intro first; simpl; auto. destruct first; simpl; auto. Qed.
+
+Lemma doc_items_or_or : forall ds, existsb item_is_or (doc_items TOr ds true) = match ds with _ :: _ :: _ => true | _ => false end.
+Proof. destruct ds as [|d [|d' r]]; simpl; auto. Qed.
+
 Lemma doc_items_sems : forall val rel ds first,
   forallb (fun it => doc_sem val (snd it)) (doc_items rel ds first) = forallb (doc_sem val) ds /\
   existsb (fun it => doc_sem val (snd it)) (doc_items rel ds first) = existsb (doc_sem val) ds.
@@ -424,8 +415,26 @@ Proof.
   rewrite Ha. simpl. rewrite andb_true_r, orb_false_r. reflexivity.
 Qed.
 
+(* an operand that may be joined on its parent's line shows one literal, which reads as the operand under the flag *)
+Lemma fexpr_lit_sem : forall val e b, fexpr_is_lit e = true ->
+  exists l, fexpr_lit b e = Some l /\ lit_sem val l = xorb b (fsem val e).
+Proof.
+  intros val. induction e as [l | es | es | e IH]; intros b H; simpl in H; try discriminate.
+  - exists (neg_lit b l). split; [reflexivity | apply lit_sem_neg].
+  - destruct (IH (negb b) H) as (l & El & Hl). exists l. split; [exact El |].
+    rewrite Hl. cbn [fsem]. destruct b, (fsem val e); reflexivity.
+Qed.
+
+Lemma fexpr_lits_sem : forall val b es, forallb fexpr_is_lit es = true ->
+  map (lit_sem val) (fexpr_lits b es) = map (fun e => xorb b (fsem val e)) es.
+Proof.
+  intros val b es. induction es as [|e es IH]; intro H; simpl; auto.
+  simpl in H. apply andb_true_iff in H. destruct H as [He Hes].
+  destruct (fexpr_lit_sem val e b He) as (l & El & Hl). rewrite El. simpl. rewrite Hl, IH; auto.
+Qed.
+
 Lemma operand_sems : forall val single b es,
-  Forall (fun e => fexpr_wf e = true -> doc_sem val (render_under single b e) = xorb b (fsem val e)) es ->
+  Forall (fun e => forall b, fexpr_wf e = true -> doc_sem val (render_under single b e) = xorb b (fsem val e)) es ->
   forallb fexpr_wf es = true ->
   map (doc_sem val) (map (render_under single b) es) = map (fun e => xorb b (fsem val e)) es.
 Proof.
@@ -433,78 +442,67 @@ Proof.
   simpl in Hwf. apply andb_true_iff in Hwf. destruct Hwf as [Hwe Hwes]. rewrite He, IH; auto.
 Qed.
 
-Lemma forallb_as_map : forall {A} (f : A -> bool) l, forallb f l = forallb (fun b => b) (map f l).
-Proof. intros. rewrite forallb_map'. reflexivity. Qed.
-
-Lemma existsb_as_map : forall {A} (f : A -> bool) l, existsb f l = existsb (fun b => b) (map f l).
-Proof. intros. rewrite existsb_map'. reflexivity. Qed.
+Lemma map_nonempty : forall {A B} (g : A -> bool) (h : B -> bool) (l : list A) (l' : list B),
+  map g l = map h l' -> l' <> [] -> l <> [].
+Proof. intros A B g h l l' E Hne Hl. subst l. destruct l'; [congruence | discriminate E]. Qed.
 
 (* the description of e under a transformer with negation flag b reads as: e negated iff b *)
-Lemma doc_sem_render_under : forall val single b e, fexpr_wf e = true -> doc_sem val (render_under single b e) = xorb b (fsem val e).
+Lemma doc_sem_render_under : forall val single e b, fexpr_wf e = true -> doc_sem val (render_under single b e) = xorb b (fsem val e).
 Proof.
-  intros val single b. induction e using fexpr_ind'; intro Hwf.
+  intros val single. induction e using fexpr_ind'; intros b Hwf.
   - cbn [render_under doc_sem]. unfold toks_sem. cbn [toks_has_or toks_lits forallb fsem]. rewrite andb_true_r. apply lit_sem_neg.
   - simpl in Hwf. destruct es as [|e0 es0]; try discriminate.
     assert (Hne : e0 :: es0 <> []) by discriminate.
-    cbn [render_under]. destruct (forallb fexpr_is_lit (e0 :: es0) && single b (e0 :: es0)) eqn:E.
-    + apply andb_true_iff in E. destruct E as [El _]. cbn [doc_sem fsem].
-      destruct (all_lits_sem val _ El) as [Ha He]. pose proof (all_lits_length _ El) as Hlen. rewrite Ha.
+    cbn [render_under fsem]. destruct (forallb fexpr_is_lit (e0 :: es0) && single b (e0 :: es0)) eqn:E.
+    + apply andb_true_iff in E. destruct E as [El _]. cbn [doc_sem].
+      pose proof (fexpr_lits_sem val b _ El) as Hl.
       destruct b; cbn [tok_all].
-      * rewrite toks_sem_line_or, existsb_map'.
-        -- rewrite (existsb_ext' _ (fun l => negb (lit_sem val l))) by (intro l; rewrite lit_sem_neg; apply xorb_true_l).
-           rewrite existsb_negb. symmetry. apply xorb_true_l.
-        -- destruct (fexpr_lits (e0 :: es0)); [discriminate Hlen | discriminate].
-      * rewrite toks_sem_line_and, forallb_map'.
-        rewrite (forallb_ext' _ (lit_sem val)) by (intro l; rewrite neg_lit_false; reflexivity). symmetry. apply xorb_false_l.
-    + cbn [fsem]. pose proof (operand_sems val single b _ H Hwf) as Hm.
+      * rewrite toks_sem_line_or by (eapply map_nonempty; [exact Hl | exact Hne]).
+        rewrite existsb_as_map, Hl, <- existsb_as_map, existsb_xorb. symmetry. apply xorb_true_l.
+      * rewrite toks_sem_line_and, forallb_as_map, Hl, <- forallb_as_map, forallb_xorb. symmetry. apply xorb_false_l.
+    + pose proof (operand_sems val single b _ H Hwf) as Hm.
       destruct b; cbn [tok_all].
       * rewrite doc_sem_items_or by (simpl; discriminate).
-        rewrite existsb_as_map, Hm, <- existsb_as_map.
-        rewrite (existsb_ext' _ (fun e => negb (fsem val e))) by (intro e; apply xorb_true_l).
-        rewrite existsb_negb. symmetry. apply xorb_true_l.
-      * rewrite doc_sem_items_and. rewrite forallb_as_map, Hm, <- forallb_as_map.
-        rewrite (forallb_ext' _ (fsem val)) by (intro e; apply xorb_false_l). symmetry. apply xorb_false_l.
+        rewrite existsb_as_map, Hm, <- existsb_as_map, existsb_xorb. symmetry. apply xorb_true_l.
+      * rewrite doc_sem_items_and, forallb_as_map, Hm, <- forallb_as_map, forallb_xorb. symmetry. apply xorb_false_l.
   - simpl in Hwf. destruct es as [|e0 es0]; try discriminate.
     assert (Hne : e0 :: es0 <> []) by discriminate.
-    cbn [render_under]. destruct (forallb fexpr_is_lit (e0 :: es0) && single b (e0 :: es0)) eqn:E.
-    + apply andb_true_iff in E. destruct E as [El _]. cbn [doc_sem fsem].
-      destruct (all_lits_sem val _ El) as [Ha He]. pose proof (all_lits_length _ El) as Hlen. rewrite He.
+    cbn [render_under fsem]. destruct (forallb fexpr_is_lit (e0 :: es0) && single b (e0 :: es0)) eqn:E.
+    + apply andb_true_iff in E. destruct E as [El _]. cbn [doc_sem].
+      pose proof (fexpr_lits_sem val b _ El) as Hl.
       destruct b; cbn [tok_any].
-      * rewrite toks_sem_line_and, forallb_map'.
-        rewrite (forallb_ext' _ (fun l => negb (lit_sem val l))) by (intro l; rewrite lit_sem_neg; apply xorb_true_l).
-        rewrite forallb_negb. symmetry. apply xorb_true_l.
-      * rewrite toks_sem_line_or, existsb_map'.
-        -- rewrite (existsb_ext' _ (lit_sem val)) by (intro l; rewrite neg_lit_false; reflexivity). symmetry. apply xorb_false_l.
-        -- destruct (fexpr_lits (e0 :: es0)); [discriminate Hlen | discriminate].
-    + cbn [fsem]. pose proof (operand_sems val single b _ H Hwf) as Hm.
+      * rewrite toks_sem_line_and, forallb_as_map, Hl, <- forallb_as_map, forallb_xorb. symmetry. apply xorb_true_l.
+      * rewrite toks_sem_line_or by (eapply map_nonempty; [exact Hl | exact Hne]).
+        rewrite existsb_as_map, Hl, <- existsb_as_map, existsb_xorb. symmetry. apply xorb_false_l.
+    + pose proof (operand_sems val single b _ H Hwf) as Hm.
       destruct b; cbn [tok_any].
-      * rewrite doc_sem_items_and. rewrite forallb_as_map, Hm, <- forallb_as_map.
-        rewrite (forallb_ext' _ (fun e => negb (fsem val e))) by (intro e; apply xorb_true_l).
-        rewrite forallb_negb. symmetry. apply xorb_true_l.
+      * rewrite doc_sem_items_and, forallb_as_map, Hm, <- forallb_as_map, forallb_xorb. symmetry. apply xorb_true_l.
       * rewrite doc_sem_items_or by (simpl; discriminate).
-        rewrite existsb_as_map, Hm, <- existsb_as_map.
-        rewrite (existsb_ext' _ (fsem val)) by (intro e; apply xorb_false_l). symmetry. apply xorb_false_l.
+        rewrite existsb_as_map, Hm, <- existsb_as_map, existsb_xorb. symmetry. apply xorb_false_l.
+  - cbn [render_under fsem]. simpl in Hwf. rewrite IHe by exact Hwf. destruct b, (fsem val e); reflexivity.
 Qed.
 
-(* render_under with the flag off is render *)
-Lemma render_under_false : forall single e, render_under single false e = render (single false) e.
-Proof.
-  intros single. induction e using fexpr_ind'; cbn [render_under render tok_all tok_any].
-  - rewrite neg_lit_false. reflexivity.
-  - rewrite (map_ext _ (fun l => l) neg_lit_false), map_id.
-    replace (map (render_under single false) es) with (map (render (single false)) es); auto.
-    induction H as [|e es He Hes IH]; simpl; congruence.
-  - rewrite (map_ext _ (fun l => l) neg_lit_false), map_id.
-    replace (map (render_under single false) es) with (map (render (single false)) es); auto.
-    induction H as [|e es He Hes IH]; simpl; congruence.
-Qed.
-
-(* C17_faithful_partial, extended: expressions under zero or one not_ *)
+(* C17_faithful_partial: expressions with not_ anywhere, under either setting of the transformer's negation flag *)
 Lemma faithful_partial_negated : forall s1 s2 b1 b2 e1 e2,
   fexpr_wf e1 = true -> fexpr_wf e2 = true ->
   render_under s1 b1 e1 = render_under s2 b2 e2 ->
   forall val, xorb b1 (fsem val e1) = xorb b2 (fsem val e2).
 Proof.
   intros s1 s2 b1 b2 e1 e2 H1 H2 E val.
-  rewrite <- (doc_sem_render_under val s1 b1 e1 H1), <- (doc_sem_render_under val s2 b2 e2 H2), E. reflexivity.
+  rewrite <- (doc_sem_render_under val s1 e1 b1 H1), <- (doc_sem_render_under val s2 e2 b2 H2), E. reflexivity.
 Qed.
+
+(* under MatcherDescriptionTransformer(): the description of a check determines its verdicts *)
+Lemma faithful_partial_nested : forall s1 s2 e1 e2,
+  fexpr_wf e1 = true -> fexpr_wf e2 = true ->
+  render s1 e1 = render s2 e2 ->
+  forall val, fsem val e1 = fsem val e2.
+Proof.
+  intros s1 s2 e1 e2 H1 H2 E val. unfold render in E.
+  pose proof (faithful_partial_negated _ _ false false e1 e2 H1 H2 E val) as H.
+  rewrite !xorb_false_l in H. exact H.
+Qed.
+
+(* not_(e) is described as e under the flipped flag, also at this level *)
+Lemma render_not : forall single b e, render_under single b (FNotN e) = render_under single (negb b) e.
+Proof. reflexivity. Qed.
